@@ -602,7 +602,7 @@ container interrogated a library-internal iterator).";
     }
     println!(
         "{prop} {tier} [{}]: {} runs, {} executions, {} distinct signatures ({} non-trivial), {} violation class(es), {} known, {:.1}s",
-        profile_name(),
+        profile_label(args),
         agg.runs,
         agg.executions,
         agg.signatures.len(),
